@@ -71,12 +71,12 @@ func WithDecoy(req *pluginpb.CodeGeneratorRequest) (out *pluginpb.CodeGeneratorR
 		d.Name = proto.String(DecoyTag + "/" + f.GetName())
 		d.Package = proto.String(DecoyTag + "." + f.GetPackage())
 		gp := f.GetOptions().GetGoPackage()
+		// another import path, the SAME Go package name (like .../users/v1 and .../orders/v1)
 		imp, name, hasName := strings.Cut(gp, ";")
-		ngp := imp + DecoyTag
-		if hasName {
-			ngp += ";" + name + DecoyTag
+		if !hasName {
+			name = imp[strings.LastIndex(imp, "/")+1:]
 		}
-		d.Options.GoPackage = proto.String(ngp)
+		d.Options.GoPackage = proto.String(imp + DecoyTag + ";" + name)
 		for i, dep := range d.Dependency {
 			if gen[dep] {
 				d.Dependency[i] = DecoyTag + "/" + dep
@@ -223,7 +223,15 @@ func decoyMessage(m *descriptorpb.DescriptorProto, rename func(string) string) {
 			proto.SetExtension(o, sebufhttp.E_OneofValue, proto.GetExtension(o, sebufhttp.E_OneofValue).(string)+"_zz")
 		}
 		if proto.HasExtension(o, sebufhttp.E_FieldExamples) {
-			proto.ClearExtension(o, sebufhttp.E_FieldExamples)
+			if f.GetType() == descriptorpb.FieldDescriptorProto_TYPE_STRING {
+				ex := proto.Clone(proto.GetExtension(o, sebufhttp.E_FieldExamples).(*sebufhttp.FieldExamples)).(*sebufhttp.FieldExamples)
+				for i := range ex.Values {
+					ex.Values[i] += "-zz"
+				}
+				proto.SetExtension(o, sebufhttp.E_FieldExamples, ex)
+			} else {
+				proto.ClearExtension(o, sebufhttp.E_FieldExamples)
+			}
 		}
 		if proto.HasExtension(o, validate.E_Field) {
 			proto.ClearExtension(o, validate.E_Field)
